@@ -1,6 +1,9 @@
 #!/bin/sh
-# usage: tools/goal.sh <file.v relative to coq/> <line>   -- prints the goals after that line
+# usage: tools/goal.sh <file.v relative to coq/> <line> [tail-lines]  -- prints the goals after that line
 cd "$(dirname "$0")/../coq"
-head -n "$2" "$1" > /root/scratch/_goal.v
-printf '\nShow.\n' >> /root/scratch/_goal.v
-timeout 120 coqtop -Q . Gnmi -batch -l /root/scratch/_goal.v 2>&1 | grep -v "^Welcome\|conda" | tail -${3:-40}
+mkdir -p /root/scratch
+T=$(mktemp /root/scratch/_goal_XXXXXX.v)
+head -n "$2" "$1" > "$T"
+printf '\nShow.\n' >> "$T"
+timeout 120 coqtop -Q . Gnmi -batch -l "$T" 2>&1 | grep -v "^Welcome\|conda" | tail -${3:-40}
+rm -f "$T"
